@@ -93,6 +93,56 @@ def run(ctx):
     if ndisc < 3:
         raise AnalysisError(f"only {ndisc} discarded promise chains found (expected >= 3)", "promise chains")
 
+    # ---- C12.6 a rejection handler either passes the failure on or is a declared recovery point ----
+    r6 = ctx.rule("C12.6", "rejection handlers re-raise / reject, except at the declared recovery points", floor=4)
+    RECOVERY = {
+        ("redun/scheduler.py", "catch.promise_catch"): "catch(expr, error_class, recover): recovering from the failure is its purpose; other classes are re-raised",
+    }
+    SINKS = ("reject_job", "_reject_job_main_thread", "do_reject", "set_exception")
+    nrej = 0
+    for rel in MODS:
+        mod = repo.mod(rel)
+        for q, fn in mod.funcs.items():
+            for c in calls_in(fn, shallow=True):
+                rej = None
+                if last_attr(c) == "then" and len(c.args) == 2:
+                    rej = c.args[1]
+                if rej is None:
+                    continue
+                nrej += 1
+                construct = f"{rel}:{q}:rejector:{src(rej)[:30]}"
+                if isinstance(rej, ast.Lambda):
+                    body_calls = [last_attr(x) for x in ast.walk(rej.body) if isinstance(x, ast.Call)]
+                    ok = any(any(s_ in (b or "") for s_ in SINKS) or (b or "").startswith("call_soon") for b in body_calls)
+                    r6.check(ok, construct, f"rejection handler `{src(rej)[:60]}` neither re-raises nor rejects: the failure is turned into a value", rel, c.lineno)
+                    continue
+                if not isinstance(rej, ast.Name):
+                    r6.good(construct, "bound method / attribute passed through")
+                    continue
+                f = mod.funcs.get(f"{q}.{rej.id}")
+                if f is None:
+                    r6.good(construct, "handler defined elsewhere")
+                    continue
+                fq = f"{q}.{rej.id}"
+                if (rel, fq) in RECOVERY or (rel, fq.split(".", 1)[-1] if fq.startswith("Scheduler.") else fq) in RECOVERY:
+                    r6.good(construct, "declared recovery point: " + RECOVERY.get((rel, fq), ""))
+                    continue
+                vals = [r for r in ast.walk(f) if isinstance(r, ast.Return) and r.value is not None and not (isinstance(r.value, ast.Constant) and r.value.value is None) and mod.enclosing_func(r) is f]
+                # a handler that falls off its end without re-raising must have handed the failure to a sink
+                fcfg = CFG(f)
+                sink_nodes = [n for n in fcfg.nodes if n.kind == "stmt" and n.ast is not None and (isinstance(n.ast, ast.Raise) or any(isinstance(x, ast.Call) and any(s_ in (last_attr(x) or "") for s_ in SINKS) for x in ast.walk(n.ast)))]
+                passes_on = fcfg.must_pass(fcfg.entry, sink_nodes)
+                r6.check(
+                    not vals and passes_on,
+                    construct,
+                    f"rejection handler {fq} {'returns `' + src(vals[0].value)[:40] + '`' if vals else 'can finish without re-raising or rejecting'}: Promise.then resolves the chained promise with whatever "
+                    "a rejector returns, so the failure becomes an ordinary value (the workflow continues, the ancestor job is recorded DONE, downstream tasks receive the exception object as an argument)",
+                    rel,
+                    f.lineno,
+                )
+    if nrej < 4:
+        raise AnalysisError(f"only {nrej} `.then(resolver, rejector)` registrations found", "promise chains")
+
     r3 = ctx.rule("C12.3", "reject finaliser records the failure, then settles, then finalises; ancestors fail through the catch", floor=3)
     h = lc.handlers[lc.REJECT]
     nprov = 0
